@@ -181,7 +181,10 @@ func c05Many(c c05Case) *imp.World {
 }
 
 // the character classes guessAlias distinguishes
-var c05Classes = []string{"a", "B", "1", "/", ".", "-", "_", "é", "٣", "İ"}
+// (the last two: number characters that are no decimal digits - allowed in no identifier)
+var c05Classes = []string{"a", "B", "1", "/", ".", "-", "_", "é", "٣", "İ", "²", "Ⅳ"}
+
+const c05CoreClasses = 10 // strings of the maximal length are built over the first ten classes only
 
 func c05PathWorld(c c05Case) *imp.World {
 	w := imp.New("NewFile", "", imp.DefaultTrueName(nil))
@@ -224,7 +227,7 @@ func runC05(r *ev.Recorder) {
 	}
 	r.Rule = fmt.Sprintf("(i) every Go keyword (go/token) and every universe-scope name of the installed toolchain (%d words) x placement {last path element, ImportName, ImportAlias, ImportNames} "+
 		"x prefix on/off x 0..2 competing paths with the same last element x every reference order; (ii) every path string of length 1..%d over the %d character classes guessAlias distinguishes "+
-		"(lower, upper, ASCII digit, '/', '.', '-', '_', non-ASCII letter, non-ASCII digit, a letter whose lower-casing changes length), alone, doubled and tripled (same last element), prefix on/off; "+
+		"(lower, upper, ASCII digit, '/', '.', '-', '_', non-ASCII letter, non-ASCII digit, a letter whose lower-casing changes length; below the maximal length also a superscript digit and a letter-number, which no identifier may contain), alone, doubled and tripled (same last element), prefix on/off; "+
 		"(iv) every base b such that b<number> is predeclared (int, uint, float3, complex12, ...) with 1..10 competing paths (by last element / by ImportName), prefix on/off; (iii) path families competing for one base name (one of them with many distinct names and references inside Dict keys/values): every reference sequence of length <= 4 in every order with <= %d non-default settings (hints, Anon, prefix). "+
 		"Oracle on the parsed output: every written import name satisfies token.IsIdentifier, is no keyword and not in types.Universe; no two specs share an effective name; go/types reports no error. "+
 		"distinct_nontrivial = distinct outputs in which jennifer had to rename (some spec carries an alias)", len(c05Words), maxLen, len(c05Classes), dev)
@@ -328,14 +331,25 @@ func runC05(r *ev.Recorder) {
 	}
 
 	// (ii)
-	n := int64(len(c05Classes))
+	// every string of length < maxLen over all classes, and of length maxLen over the core classes
 	var total int64
 	pow := int64(1)
 	offsets := []int64{0}
+	bases := []int64{0}
 	for l := 1; l <= maxLen; l++ {
-		pow *= n
+		n := int64(len(c05Classes))
+		if l == maxLen {
+			n = c05CoreClasses
+			pow = 1
+			for i := 0; i < l; i++ {
+				pow *= n
+			}
+		} else {
+			pow *= n
+		}
 		total += pow
 		offsets = append(offsets, total)
+		bases = append(bases, n)
 	}
 	done := explore.Range(total, 0, r.Expired, func(_ int, i int64) {
 		l := 1
@@ -343,6 +357,7 @@ func runC05(r *ev.Recorder) {
 			l++
 		}
 		j := i - offsets[l-1]
+		n := bases[l]
 		var sb strings.Builder
 		for k := 0; k < l; k++ {
 			sb.WriteString(c05Classes[j%n])
